@@ -788,6 +788,12 @@ fn worker_history(rng: &mut Rng, next_id: &mut u64, rep: &Report) -> bool {
                         block_on(sink.flush());
                         own_barriers.lock().unwrap().push((p, k, out.count()));
                     }
+                    if prng.below(1000) < own_flush_pm / 2 {
+                        // a flush that is given up on (timeout, lost select! arm): requested, polled once, dropped
+                        let mut f = Box::pin(sink.flush());
+                        let _ = vcommon::sync::poll_once(f.as_mut());
+                        drop(f);
+                    }
                     if use_guards && k % 3 == 0 {
                         drop(i.call().close_and_merge(sink.clone()));
                     } else {
